@@ -22,7 +22,7 @@ SPEC = {
     "design_ref": "DESIGN.md section 7, C03",
     "suites": [
         Suite(name="conc", harness="vh_conc", runner="conc",
-              model_deps=["theories/Model/CounterConc.vo"],
+              model_deps=["theories/Model/CounterConc.vo", "theories/Model/CounterMulti.vo"],
               quick_n=400, thorough_n=12000, rewrite=rewrite_counter_imports, tags="verif,verifconc", coq_replay=coqreplay.conc,
               rule="each case is one scenario: 2-4 goroutines calling the real Counter.Add on one counter, plus "
                    "0-2 mapping changers (first open / rotation via the real rotate1, growth via the real "
@@ -32,10 +32,14 @@ SPEC = {
                    "the state word, pointer, current mapping, persisted total and closed mappings are compared "
                    "with the model run on the same schedule. distinct = distinct scenario+schedule+observation "
                    "lines; all are non-trivial (>= 2 threads). Scenario mix: a rotation and one or two lookups of other (large) counters, "
-                   "of which the first one in a tight file extends it. Every 8th case is an ORACLE-ONLY scenario outside the "
-                   "single-counter model (kind multi: 2-4 real counters with pending values and the first open of an existing counter "
-                   "file whose first page is full, so that a changer's own refresh-lookup extends the file): no lock-step comparison, "
-                   "only 'every call returns, no panic, every counter's persisted value = its increments, nothing pending'"),
+                   "of which the first one in a tight file extends it. Every 8th case, and every schedule with <= 1 (thorough: 2) forced "
+                   "context switches of four small configurations, is a MULTI-counter scenario (kind multi: 2-4 real counters with "
+                   "pending values, 0-2 fresh counters whose first Add - registration included - races with the first open of an "
+                   "existing counter file whose first page may be full, so that a lookup extends the file and the cleanup walks all "
+                   "counters): Model/CounterMulti runs in LOCK STEP, one model step per scheduler step (no step is filtered), and "
+                   "after EVERY step every counter's state word, pointer and persisted value, the current mapping and the number of "
+                   "closed mappings are compared; a set self-check flag of the model is a DIFF; the oracles hang / panic / instant "
+                   "(per counter) / quiescent stay"),
         Suite(name="reg", harness="vh_reg", runner="reg",
               model_deps=["theories/Model/Register.vo"],
               quick_n=300, thorough_n=5000, rewrite=rewrite_counter_imports, tags="verif,verifconc",
@@ -55,9 +59,14 @@ SPEC = {
                   "internal/counter under a deterministic scheduler in lock step with the extracted model.",
     "level_note": "Trusted: Coq kernel+VM, extraction, OCaml glue, the scheduler/atomic/mutex shims (they define what "
                   "one atomic step is; sequential consistency, which sync/atomic guarantees), the import rewrite of "
-                  "the scratch copy, the harness. Modelled not verified: in the word protocol the counter is pre-registered (the lock-free "
+                  "the scratch copy, the harness. Modelled not verified: in the SINGLE-counter word protocol the counter is pre-registered (the lock-free "
                   "registration list has its own model, theorems and lock-step suite), critical sections under file.mu are one step, the file-level protocol "
-                  "inside lookup (C04), timers. The extension of the file from inside a lock holder's own lookup IS modelled (LLook2 with s_full: "
+                  "inside lookup (C04), timers. SEVERAL counters (property text: 'shared and distinct counters'): Model/CounterMulti is the transition system of N counters of one file object "
+                  "- Add including file.register and the registrar's invalidate+refresh (f518e0b), rotate1, invalidateCounters' walk over every registered counter, the nested walk of an inline extension - whose per-counter work IS step_thread of the single-counter model on that counter's view; "
+                  "C03_multi_step_projects proves that every multi step is, for every counter, a stutter, one single-counter step, or one of two registration transitions (the claimer takes on its redo; a walk drops a counter that is not on the list it loaded), "
+                  "C03_multi_invariant that the single-counter invariant therefore holds of every counter's view along every multi schedule - including the window in which a counter is claimed but not yet linked, where the claimer's pending redo answers for the counter the walk missed - and "
+                  "C03_multi_upper_bound / _exact_at_quiescence / _no_nil_deref are its corollaries. These multi theorems carry two hypotheses on the FINAL state of the run: ms_bad = false (envelope: no thread's lookups extend the file twice; no Add extends the file on a counter another goroutine is still registering - there the own invalidate is skipped and the invariant's clause 'the grower holds the lock with havePtr clear' is false) and ms_chk = false (run-time self checks of the multi-level control - embedded threads where the walk expects them - which are TESTED by the lock-step (a set flag is a DIFF), not proved unreachable). "
+                  "The multi scenarios of suite conc run in lock step against the extracted CounterMulti; changers SameFile / NoFile at the multi level and a third nesting level are not modelled. The extension of the file from inside a lock holder's own lookup IS modelled (LLook2 with s_full: "
                   "store of the new mapping, inline invalidate / refresh / close, assignment of the returned pointer; C03_grower_must_look_up_again); "
                   "the same extension by a CHANGER's own refresh-lookup (first open - target FullFile - of an existing file without room, by a process with pending increments) is modelled too (t_prev2: the mapping a thread's own lookup replaced; lock-step scenario openfull); "
                   "a second, nested extension inside the refresh of that cleanup is not (a file that was just extended has room). 'no fault' is refuted "
@@ -65,10 +74,11 @@ SPEC = {
     "assumptions": [
         "sequentially consistent atomics (sync/atomic); fewer than 2^30-1 goroutines inside Add at once",
         "file.lookup succeeds when a file is mapped (lookup failures are C05's domain)",
-        "in the word-protocol model the counter is registered before the concurrent phase (registration racing with the first "
-        "open is covered by Model/Register, C03_register_returned_means_listed_or_claimed, and by the oracle-only multi-counter "
-        "scenarios, which found the defect repaired by fix f518e0b); critical sections under file.mu are atomic steps",
+        "in the single-counter model the counter is registered before the concurrent phase; registration racing with the first "
+        "open is covered by Model/Register, C03_register_returned_means_listed_or_claimed, and by Model/CounterMulti "
+        "(C03_multi_invariant; lock-step of the multi scenarios, which - then oracle-only - found the defect repaired by fix f518e0b); "
+        "critical sections under file.mu are atomic steps; the multi theorems assume the final flags ms_bad = ms_chk = false",
     ],
     "trusted_base": [],
-    "own_objects": ["theories/Props/C03.vo", "theories/Proofs/CounterThms.vo", "theories/Proofs/CounterInv.vo", "theories/Proofs/CounterWord.vo", "theories/Proofs/CounterFault.vo", "theories/Proofs/CounterProgress.vo", "theories/Proofs/RegisterFacts.vo", "theories/Proofs/GoFnsCounter.vo"],
+    "own_objects": ["theories/Props/C03.vo", "theories/Proofs/CounterThms.vo", "theories/Proofs/CounterInv.vo", "theories/Proofs/CounterWord.vo", "theories/Proofs/CounterFault.vo", "theories/Proofs/CounterProgress.vo", "theories/Proofs/RegisterFacts.vo", "theories/Proofs/GoFnsCounter.vo", "theories/Proofs/CounterMultiFacts.vo", "theories/Model/CounterMulti.vo"],
 }
